@@ -247,6 +247,67 @@ class WsWorld:
         self.c2s, self.s2c = c2s, s2c
         return c, s
 
+    def decoy_pair(self, cfac, sfac, script):
+        """An earlier connection between the same two factories, run to completion before the judged connection starts:
+        handshake, `script(client_ep, server_ep)` (application activity), then the connection is cut (RST both ways).
+        Nothing it leaves behind in the process, the factories or the classes may affect the judged connection."""
+        tc, ts, pc, ps, c2s, s2c = self.fw.connect_pair(self.run, self.reactor, cfac, sfac, names=("DC", "DS"))
+        dc, ds = Ep(self, "DC", False), Ep(self, "DS", True)
+        for ep, t, p in ((dc, tc, pc), (ds, ts, ps)):
+            ep.t, ep.p = t, p
+            p.ep = ep
+            t.observers.append(ep.on_write)
+        pipes = [(c2s, ds), (s2c, dc)]
+
+        def pump():
+            for _ in range(40):
+                moved = False
+                for ep in (dc, ds):
+                    if ep.t.needs_flush():
+                        ep.t.flush(None)
+                        moved = True
+                for pipe, rcv in pipes:
+                    if pipe.buf and not pipe.ended and rcv.t.can_read():
+                        chunk = pipe.take(len(pipe.buf))
+                        rcv.on_delivered(chunk)
+                        self.fw.deliver(self, rcv.t, chunk)
+                        moved = True
+                if self.fw.loop_drain(self):
+                    moved = True
+                if not moved:
+                    break
+        self.fw.make_connection(ts)
+        self.fw.make_connection(tc)
+        pump()
+        if dc.p._st != 3 or ds.p._st != 3:
+            raise HarnessError("decoy connection did not open: %r %r" % (dc.events, ds.events))
+        try:
+            self.fw.call(self, script, dc, ds)
+        except Exception as e:  # noqa
+            raise HarnessError("decoy script raised %r" % (e,))
+        pump()
+        # cut
+        c2s.reset()
+        s2c.reset()
+        for pipe, rcv in pipes:
+            if not rcv.t.is_gone():
+                pipe.ended = True
+                pipe.buf = bytearray()
+                self.fw.peer_rst(self, rcv.t)
+        self.fw.loop_drain(self)
+        # let zero-delay continuations (abort, queued writes) run
+        for _ in range(20):
+            nt = self.fw.next_timer(self.reactor)
+            if nt is None or nt - self.now() > 1e-3:
+                break
+            self.fw.fire_next(self)
+            self.fw.loop_drain(self)
+        for ep in (dc, ds):
+            for where, exc in list(ep.t.escaped):
+                self.on_escape(ep, where, exc)
+        self.run.probe("decoy-connection-before")
+        self.run.log("decoy", "done", dc.p._st, ds.p._st)
+
     def build_raw(self, fac, is_server):
         aw, RecServer, RecClient = ws_classes()
         fac.protocol = RecServer if is_server else RecClient
